@@ -1,5 +1,7 @@
 import FpVerif.Lemmas.IterTerm
 import FpVerif.Lemmas.IterPre
+import FpVerif.Lemmas.PipeSim
+import FpVerif.Lemmas.IterPanic
 /-!
 # C12 — Iterator combinators agree with eager Seq semantics, terminate, and are lazy
 
@@ -18,8 +20,19 @@ Terminal operations (folds, `ToSeq`, `Count`, `Find`, …) equal the list comput
 iterator where the Go loop stops (`FoldTry`/`FoldOption`/`FoldError`/`Exists`/`ForAll`/`Find` stop
 pulling at the first failure / hit).
 
+Every pipeline: `pipe_joint` / `pipe_represents` — ONE theorem by induction over the `Pipe` AST (the
+data type of library calls that the oracle executes): building any pipeline succeeds and its
+iterator represents `Pipe.denote`; the invariant carried through the induction is the joint
+invariant of the iterator and its `concat` field, with `ConcatInv` saying that the components before
+`currentItr` are exhausted — so `x.Concat(y).Drop(n).Concat(z)` is covered (`concat_drop_concat`).
+
 Laziness: see section "demand" — the instrumented source's pull counter after any script is bounded
-by the number of elements the consumer obtained plus at most one.
+by the number of elements the consumer obtained plus at most one (`Take`, `TakeWhile`, `Map`, `Scan`,
+`Filter`, `DropWhile`, `FlatMap`, `Concat`, `Zip`).
+
+Callbacks that may panic: section "callbacks that may panic" — for the terminal operations the step
+function may panic (`Outcome`); the panic propagates and the iterator is left as after the last
+completed pull.
 
 The lazy `List` part of the property is in `Spec/C12List.lean`.
 -/
@@ -183,6 +196,197 @@ theorem pipeline_example (p : α → GoM Bool) (gp : α → Bool) (hp : Total p 
       (((xs.filter gp).map gf).take n.toNat) :=
   take_represents n _ _ _ (map_represents f gf hf _ _ _
     (filter_represents p gp hp _ _ _ (ofSeq_represents tag xs) _ (Nat.lt_succ_self _)))
+
+/-! ## every pipeline: induction over the `Pipe` AST
+
+`Pipe` is the AST of library calls (ten sources, fifteen combinators, nested arbitrarily, also
+inside `FlatMap` callbacks); `Pipe.build` runs the constructors (`Drop`'s loop, `MakePullIterator`'s
+first pull), `Pipe.machine` is the resulting iterator and `Pipe.parts` its `concat` field.  The
+oracle runs exactly these definitions. -/
+
+/-- EVERY pipeline: building it succeeds, and the iterator represents the list its denotation
+    computes.  The statement is the joint invariant `Pipe.Joint` of the iterator and its `concat`
+    field, which is what makes the induction go through `x.Concat(y).Drop(n).Concat(z)`: `Drop`
+    consumes through the first `Concat` iterator, the second `Concat` then iterates over the
+    flattened components `[x, y, z]` sharing that state — and finds the components before
+    `currentItr` exhausted (`ConcatInv`). -/
+theorem pipe_joint (p : Pipe) : ∀ (x : Val), p.OK x → ∀ lg : Log,
+    ∃ (s : p.St) (lg' : Log), (p.build x).run.run lg = (.ok s, lg') ∧ Pipe.Joint p s (p.denote x) := by
+  induction p with
+  | src id xs =>
+    intro x _ lg
+    refine ⟨(0 : Nat), lg, by rw [Pipe.build]; rfl, Pipe.Joint.ofRepresents (Pipe.parts_single _ (by intros; simp) (by intros; simp)) ?_⟩
+    rw [Pipe.machine]; exact ofSeq_represents _ xs
+  | seq xs =>
+    intro x _ lg
+    refine ⟨(0 : Nat), lg, by rw [Pipe.build]; rfl, Pipe.Joint.ofRepresents (Pipe.parts_single _ (by intros; simp) (by intros; simp)) ?_⟩
+    rw [Pipe.machine]; exact ofSeq_represents _ xs
+  | arg n =>
+    intro x _ lg
+    refine ⟨((List.range n).map (fun (i : Nat) => Val.int (x.asInt + (i : Int))), (0 : Nat)), lg,
+      by rw [Pipe.build]; rfl, Pipe.Joint.ofRepresents (Pipe.parts_single _ (by intros; simp) (by intros; simp)) ?_⟩
+    rw [Pipe.machine]
+    exact ⟨_, ofSeqS_sim _, rfl, by simp [ofSeqRel, Pipe.denote]⟩
+  | gen id start step => intro x h; exact absurd h (by simp [Pipe.OK])
+  | range closed a b =>
+    intro x _ lg
+    refine ⟨a, lg, by rw [Pipe.build]; rfl, Pipe.Joint.ofRepresents (Pipe.parts_single _ (by intros; simp) (by intros; simp)) ?_⟩
+    rw [Pipe.machine]
+    exact map_represents _ Val.int (total_pure Val.int) _ _ _ (range_represents closed a b)
+  | opt o =>
+    intro x _ lg
+    refine ⟨true, lg, by rw [Pipe.build]; rfl, Pipe.Joint.ofRepresents (Pipe.parts_single _ (by intros; simp) (by intros; simp)) ?_⟩
+    rw [Pipe.machine]; exact ofOption_represents o
+  | empty =>
+    intro x _ lg
+    refine ⟨(), lg, by rw [Pipe.build]; rfl, Pipe.Joint.ofRepresents (Pipe.parts_single _ (by intros; simp) (by intros; simp)) ?_⟩
+    rw [Pipe.machine]; exact empty_represents
+  | zero =>
+    intro x _ lg
+    refine ⟨(), lg, by rw [Pipe.build]; rfl, Pipe.Joint.ofRepresents (Pipe.parts_single _ (by intros; simp) (by intros; simp)) ?_⟩
+    rw [Pipe.machine]; exact ⟨_, zero_sim, rfl⟩
+  | rev xs =>
+    intro x _ lg
+    refine ⟨xs.length, lg, by rw [Pipe.build]; rfl, Pipe.Joint.ofRepresents (Pipe.parts_single _ (by intros; simp) (by intros; simp)) ?_⟩
+    rw [Pipe.machine]; exact reverseSeq_represents xs
+  | pullseq id xs =>
+    intro x _ lg
+    obtain ⟨s', v, lg', e, hR⟩ := pull_represents (ofSeq (some (srcTag id)) xs) 0 xs (ofSeq_represents _ xs) none lg
+    refine ⟨(s', v), lg', ?_, Pipe.Joint.ofRepresents (Pipe.parts_single _ (by intros; simp) (by intros; simp)) ?_⟩
+    · rw [Pipe.build]
+      show Pipe.build.runInit (pullInit (ofSeq (some (srcTag id)) xs)) ((0 : Nat), none) lg = _
+      simp only [Pipe.build.runInit, e]
+      rfl
+    · rw [Pipe.machine]; exact hR
+  | map p f ih =>
+    intro x hok lg
+    obtain ⟨s, lg', e, hJ⟩ := ih x hok.1 lg
+    refine ⟨s, lg', by rw [Pipe.build]; exact e, Pipe.Joint.ofRepresents (Pipe.parts_single _ (by intros; simp) (by intros; simp)) ?_⟩
+    rw [Pipe.machine]; exact map_represents f _ hok.2 _ _ _ hJ.represents
+  | tap p f ih =>
+    intro x hok lg
+    obtain ⟨s, lg', e, hJ⟩ := ih x hok.1 lg
+    refine ⟨s, lg', by rw [Pipe.build]; exact e, Pipe.Joint.ofRepresents (Pipe.parts_single _ (by intros; simp) (by intros; simp)) ?_⟩
+    rw [Pipe.machine]; exact tapEach_represents f hok.2 _ _ _ hJ.represents
+  | take p n ih =>
+    intro x hok lg
+    obtain ⟨s, lg', e, hJ⟩ := ih x hok lg
+    refine ⟨(s, (0 : Nat)), lg', by rw [Pipe.build, gom_bind_ok e]; rfl,
+      Pipe.Joint.ofRepresents (Pipe.parts_single _ (by intros; simp) (by intros; simp)) ?_⟩
+    rw [Pipe.machine]; exact take_represents n _ _ _ hJ.represents
+  | drop p n ih =>
+    intro x hok lg
+    obtain ⟨s, lg1, e, hJ⟩ := ih x hok lg
+    obtain ⟨s', lg', e2, hJ'⟩ := hJ.drop n lg1
+    refine ⟨s', lg', ?_, hJ'⟩
+    rw [Pipe.build, gom_bind_ok e]
+    show Pipe.build.runInit (It.drop n (Pipe.machine p)) s lg1 = _
+    simp only [Pipe.build.runInit, e2]
+    rfl
+  | takew p f ih =>
+    intro x hok lg
+    obtain ⟨s, lg', e, hJ⟩ := ih x hok.1 lg
+    refine ⟨(s, {}), lg', by rw [Pipe.build, gom_bind_ok e]; rfl,
+      Pipe.Joint.ofRepresents (Pipe.parts_single _ (by intros; simp) (by intros; simp)) ?_⟩
+    rw [Pipe.machine]; exact takeWhile_represents f _ hok.2 _ _ _ hJ.represents
+  | dropw p f ih =>
+    intro x hok lg
+    obtain ⟨s, lg', e, hJ⟩ := ih x hok.1 lg
+    refine ⟨(s, {}), lg', by rw [Pipe.build, gom_bind_ok e]; rfl,
+      Pipe.Joint.ofRepresents (Pipe.parts_single _ (by intros; simp) (by intros; simp)) ?_⟩
+    rw [Pipe.machine]; exact dropWhile_represents f _ hok.2.1 _ _ _ hJ.represents FUEL hok.2.2
+  | filter p f ih =>
+    intro x hok lg
+    obtain ⟨s, lg', e, hJ⟩ := ih x hok.1 lg
+    refine ⟨(s, {}), lg', by rw [Pipe.build, gom_bind_ok e]; rfl,
+      Pipe.Joint.ofRepresents (Pipe.parts_single _ (by intros; simp) (by intros; simp)) ?_⟩
+    rw [Pipe.machine]; exact filter_represents f _ hok.2.1 _ _ _ hJ.represents FUEL hok.2.2
+  | filternot p f ih =>
+    intro x hok lg
+    obtain ⟨s, lg', e, hJ⟩ := ih x hok.1 lg
+    refine ⟨(s, {}), lg', by rw [Pipe.build, gom_bind_ok e]; rfl,
+      Pipe.Joint.ofRepresents (Pipe.parts_single _ (by intros; simp) (by intros; simp)) ?_⟩
+    rw [Pipe.machine]; exact filterNot_represents f _ hok.2.1 _ _ _ hJ.represents FUEL hok.2.2
+  | concat p q ihp ihq =>
+    intro x hok lg
+    obtain ⟨s, lg1, e1, hJ1⟩ := ihp x hok.1 lg
+    obtain ⟨t, lg2, e2, hJ2⟩ := ihq x hok.2 lg1
+    exact ⟨((s, t), {}), lg2, by rw [Pipe.build, gom_bind_ok e1, gom_bind_ok e2]; rfl, hJ1.concat hJ2⟩
+  | flatmap p pre k ihp ihk =>
+    intro x hok lg
+    obtain ⟨hokp, hpre, hokk, hlen⟩ := hok
+    obtain ⟨s, lg', e, hJ⟩ := ihp x hokp lg
+    refine ⟨(s, none), lg', by rw [Pipe.build, gom_bind_ok e]; rfl,
+      Pipe.Joint.ofRepresents (Pipe.parts_single _ (by intros; simp) (by intros; simp)) ?_⟩
+    rw [Pipe.machine]
+    refine ⟨_, flatMap_simG (Represents.sim (Pipe.machine k)) (fun a => k.denote a) FUEL
+      (Represents.sim (Pipe.machine p)), [], p.denote x, hJ.represents, hlen, ?_, [], rfl, by simp [Pipe.denote],
+      by simp⟩
+    intro a ha lg0
+    obtain ⟨lg1, e1⟩ := hpre a lg0
+    obtain ⟨t, lg2, e2, hJk⟩ := ihk a (hokk a ha) lg1
+    exact ⟨t, lg2, by rw [gom_bind_ok e1]; exact e2, hJk.represents⟩
+  | filtermap p f ih =>
+    intro x hok lg
+    obtain ⟨s, lg', e, hJ⟩ := ih x hok.1 lg
+    refine ⟨(s, none), lg', by rw [Pipe.build, gom_bind_ok e]; rfl,
+      Pipe.Joint.ofRepresents (Pipe.parts_single _ (by intros; simp) (by intros; simp)) ?_⟩
+    rw [Pipe.machine]; exact filterMap_represents f _ hok.2.1 _ _ _ hJ.represents FUEL hok.2.2
+  | scan p z f ih =>
+    intro x hok lg
+    obtain ⟨s, lg', e, hJ⟩ := ih x hok.1 lg
+    refine ⟨(s, { sum := z }), lg', by rw [Pipe.build, gom_bind_ok e]; rfl,
+      Pipe.Joint.ofRepresents (Pipe.parts_single _ (by intros; simp) (by intros; simp)) ?_⟩
+    rw [Pipe.machine]; exact scan_represents f _ hok.2 z _ _ _ hJ.represents
+  | zip p q ihp ihq =>
+    intro x hok lg
+    obtain ⟨s, lg1, e1, hJ1⟩ := ihp x hok.1 lg
+    obtain ⟨t, lg2, e2, hJ2⟩ := ihq x hok.2 lg1
+    refine ⟨(s, t), lg2, by rw [Pipe.build, gom_bind_ok e1, gom_bind_ok e2]; rfl,
+      Pipe.Joint.ofRepresents (Pipe.parts_single _ (by intros; simp) (by intros; simp)) ?_⟩
+    rw [Pipe.machine]
+    exact map_represents _ (fun ab => Pipe.tupV ab.1 ab.2) (total_pure _) _ _ _
+      (zip_represents _ _ _ _ _ _ hJ1.represents hJ2.represents)
+  | zip3 p q r ihp ihq ihr =>
+    intro x hok lg
+    obtain ⟨s, lg1, e1, hJ1⟩ := ihp x hok.1 lg
+    obtain ⟨t, lg2, e2, hJ2⟩ := ihq x hok.2.1 lg1
+    obtain ⟨u, lg3, e3, hJ3⟩ := ihr x hok.2.2 lg2
+    refine ⟨(s, t, u), lg3, by rw [Pipe.build, gom_bind_ok e1, gom_bind_ok e2, gom_bind_ok e3]; rfl,
+      Pipe.Joint.ofRepresents (Pipe.parts_single _ (by intros; simp) (by intros; simp)) ?_⟩
+    rw [Pipe.machine, zip3_eq]
+    exact map_represents _ (fun abc => Val.tup [abc.1, abc.2.1, abc.2.2]) (total_pure _) _ _ _
+      (zip_represents _ _ _ _ _ _ hJ1.represents (zip_represents _ _ _ _ _ _ hJ2.represents hJ3.represents))
+  | zipidx p ih =>
+    intro x hok lg
+    obtain ⟨s, lg', e, hJ⟩ := ih x hok lg
+    refine ⟨((0 : Nat), s), lg', by rw [Pipe.build, gom_bind_ok e]; rfl,
+      Pipe.Joint.ofRepresents (Pipe.parts_single _ (by intros; simp) (by intros; simp)) ?_⟩
+    rw [Pipe.machine]
+    exact map_represents _ (fun ia => Pipe.tupV (.int ia.1) ia.2) (total_pure _) _ _ _
+      (zipWithIndex_represents _ _ _ hJ.represents)
+
+/-- EVERY pipeline represents the list its denotation computes. -/
+theorem pipe_represents (p : Pipe) (x : Val) (hok : p.OK x) (lg : Log) :
+    ∃ (s : p.St) (lg' : Log), (p.build x).run.run lg = (.ok s, lg') ∧
+      Represents (Pipe.machine p) s [] (p.denote x) := by
+  obtain ⟨s, lg', e, hJ⟩ := pipe_joint p x hok lg
+  exact ⟨s, lg', e, hJ.represents⟩
+
+/-- the case the per-combinator theorems could not reach: `x.Concat(y).Drop(n).Concat(z)`. -/
+theorem concat_drop_concat (xs ys zs : List Val) (n : Int) (x : Val) (lg : Log) :
+    ∃ s lg', ((Pipe.concat (.drop (.concat (.seq xs) (.seq ys)) n) (.seq zs)).build x).run.run lg = (.ok s, lg') ∧
+      Represents (Pipe.machine (Pipe.concat (.drop (.concat (.seq xs) (.seq ys)) n) (.seq zs))) s []
+        ((xs ++ ys).drop n.toNat ++ zs) :=
+  pipe_represents (Pipe.concat (.drop (.concat (.seq xs) (.seq ys)) n) (.seq zs)) x ⟨⟨trivial, trivial⟩, trivial⟩ lg
+
+/-- the hypothesis `Pipe.OK` is satisfiable for pipelines with callbacks, `FlatMap` and fuel-bounded
+    loops (`FUEL` = 200000 covers every list shorter than that). -/
+example (x : Val) : (Pipe.flatmap (.filter (.src 1 [.int 1, .int 2]) (fun _ => pure true)) (fun v => pure v)
+    (.zipidx (.take (.arg 3) 2))).OK x := by
+  refine ⟨⟨trivial, LL.Total.pure1 (total_pure (fun _ => true)), by simp [Pipe.denote, FUEL]⟩,
+    LL.Total.pure1 (total_pure id), fun a _ => trivial, ?_⟩
+  exact Nat.lt_of_le_of_lt (List.length_filter_le _ _) (by simp [Pipe.denote, FUEL])
 
 /-! ## terminal operations -/
 
@@ -538,3 +742,263 @@ theorem filter_demand (p : α → GoM Bool) (g : α → Bool) (hp : Total p g) (
   · obtain ⟨⟨d0, hd0⟩, hg, hf, _⟩ := hI
     exact Or.inr (Or.inr ⟨v, d0, hd0, hg, hf⟩)
   · exact Or.inl hI.1
+
+/-- `DropWhile`: the dropped prefix is pulled, then the source runs at most one element (the
+    look-ahead `first`) ahead of the consumer; once the first kept element has been seen the pull
+    count is exact. -/
+theorem dropWhile_demand (p : α → GoM Bool) (g : α → Bool) (hp : Total p g) (tag : Option (α → Event))
+    (xs : List α) (fuel : Nat) (hfuel : xs.length < fuel) (cs : List Call) (lg : Log) :
+    let got := (xs.dropWhile g).length - (specRest cs (xs.dropWhile g)).length
+    let st := (runScript (dropWhile fuel p (ofSeq tag xs)) cs (0, {}) lg).2.1
+    st.1 ≤ (xs.takeWhile g).length + got + 1 ∧
+    (st.2.found = true → st.1 = (xs.takeWhile g).length + got + (if st.2.first.isSome then 1 else 0)) := by
+  intro got st
+  obtain ⟨d, r, d', hI, hlen, hdr, hd'⟩ := demand_frame (dropWhile fuel p (ofSeq tag xs)) {} (DropWhileInv fuel g) xs
+    (xs.dropWhile g) (dropWhile_sim hp fuel (ofSeq_sim tag xs)) (by simp [DropWhileInv, hfuel]) cs lg
+  have hsplit : (xs.takeWhile g).length + (xs.dropWhile g).length = xs.length := by
+    rw [← List.length_append, List.takeWhile_append_dropWhile]
+  have hgot : d'.length = got := by
+    have := congrArg List.length hd'; rw [List.length_append] at this; omega
+  have hxs : d.length + r.length = xs.length := by rw [← hdr, List.length_append]
+  have hout : d'.length + (specRest cs (xs.dropWhile g)).length = (xs.dropWhile g).length := by
+    rw [← List.length_append, hd']
+  have hst : st.1 = d.length := hlen.symm
+  have hc : (runScript (dropWhile fuel p (ofSeq tag xs)) cs (0, {}) lg).2.1.2 = st.2 := rfl
+  rw [hc] at hI
+  generalize st.2 = c at hI ⊢
+  obtain ⟨_, hI⟩ := hI
+  rcases c with ⟨fd, fst⟩
+  cases fd <;> cases fst <;> simp only at hI
+  · have hle : (specRest cs (xs.dropWhile g)).length ≤ r.length := by
+      rw [hI]; exact (List.dropWhile_sublist g).length_le
+    exact ⟨by omega, by simp⟩
+  · have : (specRest cs (xs.dropWhile g)).length = r.length := by rw [hI]
+    exact ⟨by omega, fun _ => by simp; omega⟩
+  · have : (specRest cs (xs.dropWhile g)).length = r.length + 1 := by rw [hI]; simp
+    exact ⟨by omega, fun _ => by simp; omega⟩
+
+/-- `FlatMap`: the source is pulled only as far as needed — everything the source elements before
+    the last pulled one expand to has already been handed out, and nothing is handed out that does
+    not come from a pulled element.  (`h a`: the list the iterator returned by the callback
+    represents; the callback needs to behave only on the elements of `xs`.) -/
+theorem flatMap_demand (mf : α → GoM τ) (inner : Machine τ β) (Ri : τ → List β → List β → Prop)
+    (hI : Sim inner Ri) (h : α → List β) (tag : Option (α → Event)) (xs : List α)
+    (hmf : ∀ a, a ∈ xs → MfOK mf Ri h a) (fuel : Nat) (hfuel : xs.length < fuel) (cs : List Call) (lg : Log) :
+    let got := (xs.flatMap h).length - (specRest cs (xs.flatMap h)).length
+    let n := (runScript (flatMap fuel mf inner (ofSeq tag xs)) cs (0, none) lg).2.1.1
+    ((xs.take n).dropLast.flatMap h).length ≤ got ∧ got ≤ ((xs.take n).flatMap h).length := by
+  intro got n
+  obtain ⟨d, r, d', hInv, hlen, hdr, hd'⟩ := demand_frame (flatMap fuel mf inner (ofSeq tag xs)) none
+    (FlatMapInvG fuel mf Ri h) xs (xs.flatMap h) (flatMap_simG hI h fuel (ofSeq_sim tag xs))
+    ⟨hfuel, hmf, [], rfl, by simp, by simp⟩ cs lg
+  have hgot : d'.length = got := by
+    have := congrArg List.length hd'; rw [List.length_append] at this; omega
+  have hd : xs.take n = d := by
+    have : n = d.length := hlen.symm
+    rw [this, ← hdr]; simp
+  obtain ⟨_, _, rc, _, hrest, hhist⟩ := hInv
+  have hcat : d' ++ rc = d.flatMap h := by
+    have h1 : d' ++ (rc ++ r.flatMap h) = d.flatMap h ++ r.flatMap h := by
+      rw [← hrest, hd', ← hdr, List.flatMap_append]
+    rw [← List.append_assoc] at h1
+    exact List.append_cancel_right h1
+  have hl : d'.length + rc.length = (d.flatMap h).length := by rw [← hcat, List.length_append]
+  rw [hd, ← hgot]
+  refine ⟨?_, by omega⟩
+  cases hrc : rc with
+  | nil =>
+    rw [hrc] at hl
+    have : (d.dropLast.flatMap h).length ≤ (d.flatMap h).length := by
+      rcases List.eq_nil_or_concat d with rfl | ⟨d0, a, rfl⟩
+      · simp
+      · simp [List.flatMap_append]
+    simp only [List.length_nil, Nat.add_zero] at hl
+    rw [hl]; exact this
+  | cons b bs =>
+    obtain ⟨d0, a, pre, hd0, hpre⟩ := hhist (by rw [hrc]; simp)
+    subst hd0
+    have h2 : ((d0 ++ [a]).flatMap h).length = (d0.flatMap h).length + (h a).length := by
+      simp [List.flatMap_append]
+    have h3 : rc.length ≤ (h a).length := by rw [← hpre, List.length_append]; omega
+    rw [hrc] at hl h3
+    simp only [List.dropLast_concat]
+    omega
+
+/-- `Concat`: no look-ahead at all — the two sources together have been pulled exactly as often
+    as elements were handed out. -/
+theorem concat_demand (t1 t2 : Option (α → Event)) (xs ys : List α) (cs : List Call) (lg : Log) :
+    let got := (xs ++ ys).length - (specRest cs (xs ++ ys)).length
+    let st := (runScript (concat ((MMachine.single (ofSeq t1 xs)).join (MMachine.single (ofSeq t2 ys)))) cs
+      ((0, 0), {}) lg).2.1
+    st.1.1 + st.1.2 = got := by
+  intro got st
+  have hms := join_msim (single_msim (ofSeq_sim t1 xs)) (single_msim (ofSeq_sim t2 ys))
+  obtain ⟨s', lg', d', e, _, ⟨L, ⟨La, Lb, ⟨da, hRa⟩, ⟨db, hRb⟩, hL⟩, hInv⟩, hd'⟩ :=
+    runScript_sim (concat_sim hms) cs ((0, 0), {}) [] (xs ++ ys) lg
+      ⟨fun i => if i < 1 then xs else ys,
+        ⟨fun _ => xs, fun _ => ys, ⟨[], by simp [ofSeqRel]⟩, ⟨[], by simp [ofSeqRel]⟩, fun i => by simp [MMachine.single]⟩,
+        by simp [ConcatInv, MMachine.join, MMachine.single, flatFrom]⟩
+  have hst : st = s' := by show (runScript _ cs ((0, 0), {}) lg).2.1 = s'; rw [e]
+  rw [hst]
+  have hflat := hInv.flat
+  have hn : ((MMachine.single (ofSeq t1 xs)).join (MMachine.single (ofSeq t2 ys))).n = 2 := rfl
+  rw [hn] at hflat
+  simp only [flatFrom, List.append_nil] at hflat
+  have h0 : L 0 = La 0 := by rw [hL 0]; simp [MMachine.single]
+  have h1 : L 1 = Lb 0 := by rw [hL 1]; simp [MMachine.single]
+  obtain ⟨hlea, _, hra⟩ := hRa
+  obtain ⟨hleb, _, hrb⟩ := hRb
+  have hlen : (specRest cs (xs ++ ys)).length = (xs.length - s'.1.1) + (ys.length - s'.1.2) := by
+    rw [hflat, List.length_append, h0, h1, hra, hrb, List.length_drop, List.length_drop]
+  have hout : d'.length + (specRest cs (xs ++ ys)).length = (xs ++ ys).length := by
+    rw [← List.length_append, hd']; simp
+  have : got = (xs ++ ys).length - (specRest cs (xs ++ ys)).length := rfl
+  rw [List.length_append] at hout this
+  omega
+
+/-- `Zip(a, b)`: `b` is pulled exactly once per pair handed out; so is `a`, except that a `Next`
+    called although `b` is exhausted (it panics) still consumes an element of `a`. -/
+theorem zip_demand (t1 : Option (α → Event)) (t2 : Option (β → Event)) (xs : List α) (ys : List β)
+    (cs : List Call) (lg : Log) :
+    let got := (xs.zip ys).length - (specRest cs (xs.zip ys)).length
+    let st := (runScript (zip (ofSeq t1 xs) (ofSeq t2 ys)) cs (0, 0) lg).2.1
+    st.2 = got ∧ got ≤ st.1 ∧ (got < st.1 → got = ys.length) := by
+  intro got st
+  obtain ⟨s', lg', d', e, _, ⟨d1, r1, d2, r2, hRa, hRb, _, hl2, hl1, hex⟩, hd'⟩ :=
+    runScript_sim (zip_simH (ofSeq_sim t1 xs) (ofSeq_sim t2 ys)) cs (0, 0) [] (xs.zip ys) lg
+      ⟨[], xs, [], ys, by simp [ofSeqRel], by simp [ofSeqRel], rfl, rfl, Nat.le_refl _, by simp⟩
+  have hst : st = s' := by show (runScript _ cs (0, 0) lg).2.1 = s'; rw [e]
+  rw [hst]
+  obtain ⟨hlea, hda, _⟩ := hRa
+  obtain ⟨hleb, hdb, hrb⟩ := hRb
+  have h1 : d1.length = s'.1 := by rw [hda, List.length_take]; omega
+  have h2 : d2.length = s'.2 := by rw [hdb, List.length_take]; omega
+  have hgot : d'.length = got := by
+    have := congrArg List.length hd'
+    simp only [List.nil_append, List.length_append] at this
+    have hg : got = (xs.zip ys).length - (specRest cs (xs.zip ys)).length := rfl
+    omega
+  refine ⟨by omega, by omega, fun hlt => ?_⟩
+  have hr2 : r2 = [] := hex (by omega)
+  rw [hr2] at hrb
+  have : ys.length ≤ s'.2 := by
+    have := congrArg List.length hrb
+    simp only [List.length_nil, List.length_drop] at this
+    omega
+  omega
+
+/-! ## callbacks that may panic
+
+`Outcome f g` / `Outcome2 f g`: whatever the log, the callback ends as `g` says — a value or a
+panic (`Total` is the special case without panics; `outcome_panic_example` shows a callback that
+panics on some inputs).  The iterator itself represents `l`; the step function of the terminal
+operation may panic.  Then the operation returns what the reference (`foldE`, `foldTryE`, …: the list
+computation up to the first panic / failure / hit) returns — a panic propagates with its value —
+and the iterator is left as after the last completed pull: it represents exactly the elements after
+the one whose step panicked (`d' ++ rest = l`). -/
+
+theorem fold_panic (f : β → α → GoM β) (g : β → α → Except PanicVal β) (hf : Outcome2 f g) (z : β)
+    (m : Machine σ α) (s : σ) (l : List α) (h : Represents m s [] l) (fuel : Nat)
+    (hfuel : l.length < fuel) (lg : Log) :
+    ∃ s' lg' d', fold f m fuel z s lg = ((foldE g z l).1, s', lg') ∧
+      Represents m s' d' (foldE g z l).2 ∧ d' ++ (foldE g z l).2 = l := by
+  simpa using fold_pspec hf (Represents.sim m) l fuel s [] z lg hfuel h
+
+/-- the reference `foldE`: without panics it is `foldl`; the first panicking step ends it with that
+    panic value and the elements after the panicking one unpulled. -/
+theorem foldE_without_panic (g : β → α → β) (z : β) (l : List α) :
+    foldE (fun b a => .ok (g b a)) z l = (.ok (l.foldl g z), []) := foldE_ok g z l
+
+theorem foldE_at_first_panic (g : β → α → Except PanicVal β) (z z' : β) (pre post : List α) (a : α) (p : PanicVal)
+    (hpre : foldE g z pre = (.ok z', [])) (ha : g z' a = .error p) :
+    foldE g z (pre ++ a :: post) = (.error p, post) := foldE_first_panic g z z' pre post a p hpre ha
+
+/-- `Reduce` (= `Fold` with the monoid's `Combine`) with a panicking `Combine`. -/
+theorem reduce_panic (combine : β → β → GoM β) (g : β → β → Except PanicVal β) (hf : Outcome2 combine g) (empty : β)
+    (m : Machine σ β) (s : σ) (l : List β) (h : Represents m s [] l) (fuel : Nat)
+    (hfuel : l.length < fuel) (lg : Log) :
+    ∃ s' lg' d', reduce empty combine m fuel s lg = ((foldE g empty l).1, s', lg') ∧
+      Represents m s' d' (foldE g empty l).2 ∧ d' ++ (foldE g empty l).2 = l :=
+  fold_panic combine g hf empty m s l h fuel hfuel lg
+
+theorem foldTry_panic (f : β → α → GoM (Try β)) (g : β → α → Except PanicVal (Try β)) (hf : Outcome2 f g) (z : β)
+    (m : Machine σ α) (s : σ) (l : List α) (h : Represents m s [] l) (fuel : Nat)
+    (hfuel : l.length < fuel) (lg : Log) :
+    ∃ s' lg' d', foldTry f m fuel z s lg = ((foldTryE g z l).1, s', lg') ∧
+      Represents m s' d' (foldTryE g z l).2 ∧ d' ++ (foldTryE g z l).2 = l := by
+  simpa using foldTry_pspec hf (Represents.sim m) l fuel s [] z lg hfuel h
+
+theorem foldOption_panic (f : β → α → GoM (Option β)) (g : β → α → Except PanicVal (Option β)) (hf : Outcome2 f g)
+    (z : β) (m : Machine σ α) (s : σ) (l : List α) (h : Represents m s [] l) (fuel : Nat)
+    (hfuel : l.length < fuel) (lg : Log) :
+    ∃ s' lg' d', foldOption f m fuel z s lg = ((foldOptionE g z l).1, s', lg') ∧
+      Represents m s' d' (foldOptionE g z l).2 ∧ d' ++ (foldOptionE g z l).2 = l := by
+  simpa using foldOption_pspec hf (Represents.sim m) l fuel s [] z lg hfuel h
+
+theorem foldError_panic (f : α → GoM (Option Err)) (g : α → Except PanicVal (Option Err)) (hf : Outcome f g)
+    (m : Machine σ α) (s : σ) (l : List α) (h : Represents m s [] l) (fuel : Nat)
+    (hfuel : l.length < fuel) (lg : Log) :
+    ∃ s' lg' d', foldError f m fuel s lg = ((foldErrorE g l).1, s', lg') ∧
+      Represents m s' d' (foldErrorE g l).2 ∧ d' ++ (foldErrorE g l).2 = l := by
+  simpa using foldError_pspec hf (Represents.sim m) l fuel s [] lg hfuel h
+
+theorem foreach_panic (f : α → GoM Unit) (g : α → Except PanicVal Unit) (hf : Outcome f g)
+    (m : Machine σ α) (s : σ) (l : List α) (h : Represents m s [] l) (fuel : Nat)
+    (hfuel : l.length < fuel) (lg : Log) :
+    ∃ s' lg' d', foreach f m fuel s lg = ((foreachE g l).1, s', lg') ∧
+      Represents m s' d' (foreachE g l).2 ∧ d' ++ (foreachE g l).2 = l := by
+  simpa using foreach_pspec hf (Represents.sim m) l fuel s [] lg hfuel h
+
+theorem exists_panic (f : α → GoM Bool) (g : α → Except PanicVal Bool) (hf : Outcome f g)
+    (m : Machine σ α) (s : σ) (l : List α) (h : Represents m s [] l) (fuel : Nat)
+    (hfuel : l.length < fuel) (lg : Log) :
+    ∃ s' lg' d', «exists» f m fuel s lg = ((existsE g l).1, s', lg') ∧
+      Represents m s' d' (existsE g l).2 ∧ d' ++ (existsE g l).2 = l := by
+  simpa using exists_pspec hf (Represents.sim m) l fuel s [] lg hfuel h
+
+theorem forAll_panic (f : α → GoM Bool) (g : α → Except PanicVal Bool) (hf : Outcome f g)
+    (m : Machine σ α) (s : σ) (l : List α) (h : Represents m s [] l) (fuel : Nat)
+    (hfuel : l.length < fuel) (lg : Log) :
+    ∃ s' lg' d', forAll f m fuel s lg = ((forAllE g l).1, s', lg') ∧
+      Represents m s' d' (forAllE g l).2 ∧ d' ++ (forAllE g l).2 = l := by
+  simpa using forAll_pspec hf (Represents.sim m) l fuel s [] lg hfuel h
+
+/-- put together with `pipe_represents`: `iterator.Fold` with a panicking step over EVERY pipeline. -/
+theorem pipe_fold_panic (p : Pipe) (x : Val) (hok : p.OK x) (f : Val → Val → GoM Val)
+    (g : Val → Val → Except PanicVal Val) (hf : Outcome2 f g) (z : Val) (fuel : Nat)
+    (hfuel : (p.denote x).length < fuel) (lg : Log) :
+    ∃ s lg1 s' lg' d', (p.build x).run.run lg = (.ok s, lg1) ∧
+      fold f (Pipe.machine p) fuel z s lg1 = ((foldE g z (p.denote x)).1, s', lg') ∧
+      Represents (Pipe.machine p) s' d' (foldE g z (p.denote x)).2 ∧ d' ++ (foldE g z (p.denote x)).2 = p.denote x := by
+  obtain ⟨s, lg1, e, hR⟩ := pipe_represents p x hok lg
+  obtain ⟨s', lg', d', e2, hR', hd⟩ := fold_panic f g hf z _ s _ hR fuel hfuel lg1
+  exact ⟨s, lg1, s', lg', d', e, e2, hR', hd⟩
+
+/-! ## unbounded generators: the lazy combinators make finite iterators out of `Generate`
+
+`iterator.Generate` never ends, so it represents no list; `PreSim` ("at least this prefix will be
+delivered") is what `Take` / `TakeWhile` need — these combinators contain no fuel at all: they
+terminate because they stop asking. -/
+
+/-- `Generate(g).Take(n)` is the finite iterator over the first `n` values. -/
+theorem take_generate (g : Nat → GoM α) (gf : Nat → α) (hg : Total g gf) (n : Int) (n0 : Nat) :
+    Represents (take n (generate g)) (n0, 0) [] (genList gf n0 n.toNat) := by
+  refine ⟨_, take_of_presim n (generate_presim hg), genList gf n0 n.toNat, ⟨n.toNat, rfl⟩, ?_, ?_⟩
+  · simp [List.take_of_length_le, genList_length]
+  · simp [genList_length]
+
+/-- `Generate(g).Map(f).Take(n)`. -/
+theorem take_map_generate (g : Nat → GoM α) (gf : Nat → α) (hg : Total g gf) (f : α → GoM β) (h : α → β)
+    (hf : Total f h) (n : Int) (n0 : Nat) :
+    Represents (take n (map f (generate g))) (n0, 0) [] ((genList gf n0 n.toNat).map h) := by
+  refine ⟨_, take_of_presim n (map_presim hf (generate_presim hg)), (genList gf n0 n.toNat).map h,
+    ⟨_, ⟨n.toNat, rfl⟩, rfl⟩, ?_, ?_⟩
+  · simp [List.take_of_length_le, genList_length]
+  · simp [genList_length]
+
+/-- `Generate(g).TakeWhile(p)` is finite as soon as some generated value fails `p`. -/
+theorem takeWhile_generate (g : Nat → GoM α) (gf : Nat → α) (hg : Total g gf) (p : α → GoM Bool) (gp : α → Bool)
+    (hp : Total p gp) (n0 k : Nat) (hk : gp (gf (n0 + k)) = false) :
+    Represents (takeWhile p (generate g)) (n0, {}) [] ((genList gf n0 (k + 1)).takeWhile gp) :=
+  ⟨_, takeWhile_of_presim hp (generate_presim hg), genList gf n0 (k + 1), ⟨k + 1, rfl⟩,
+    ⟨gf (n0 + k), genList_mem_last gf n0 k, hk⟩, rfl⟩
